@@ -46,14 +46,16 @@ Theorem select_ok :
 Proof. exact select_ok_tbl. Qed.
 Print Assumptions select_ok.
 
-(* A failed one answers NO and leaves no mailbox selected — also when one
-   was selected before. *)
+(* A failed one — whatever the failure: no such mailbox, a name the backend
+   refuses, a time-out, any other ResponseError — answers NO and leaves no
+   mailbox selected, also when one was selected before. *)
 Theorem select_fail :
   forall (B : Type) (bk : B -> bcall -> answer * B) (cfg : config) (c : conn) (b : B)
-         (name : string) (m u : bytes) (b1 : B),
+         (name : string) (m u : bytes) (x : answer) (b1 : B),
     name = "SELECT" \/ name = "EXAMINE" ->
     session_user (c_phase c) = Some u ->
-    bk b (mk_bcall "select_mailbox" m [] [] (name =? "EXAMINE")) = (AnsNo, b1) ->
+    bk b (mk_bcall "select_mailbox" m [] [] (name =? "EXAMINE")) = (x, b1) ->
+    failure_answer x = true ->
     let '(c', b', o) := conn_step B bk cmd_table cfg c b (CCmd name (AMailbox m)) in
     o_cond o = NO /\ b' = b1 /\ c_phase c' = Authd u.
 Proof. exact select_fail_tbl. Qed.
